@@ -281,10 +281,11 @@ template <typename D> static std::vector<BinOp<D> > make_ops() {
     OP("add_generators(minimized gs of z)", 0, false, x.add_generators(z.minimized_generators()); return 0;)
     OP("add_generator(first of z)", 0, false, { const Generator_System& gs = z.generators(); Generator_System::const_iterator i = gs.begin(); if (i == gs.end() || !i->is_point()) return -1; x.add_generator(*i); return 0; }) }
   if constexpr (K<D>::grid) {
-    OP("widening_assign", 1, false, TOK(x.widening_assign(y, tp)))
+    // Grid::widening_assign and limited_extrapolation_assign are documented to use the congruence or the generator widening "depending on
+    // which of the systems describing x and y are up to date": their result and token consumption legitimately depend on the lazy state,
+    // which differs between an object and a fresh copy of it.  Only the two representation-specific variants are compared.
     OP("congruence_widening_assign", 1, false, TOK(x.congruence_widening_assign(y, tp)))
     OP("generator_widening_assign", 1, false, TOK(x.generator_widening_assign(y, tp)))
-    OP("limited_extrapolation_assign(y, cgs of z)", 1, false, TOK(x.limited_extrapolation_assign(y, z.congruences(), tp)))
     OP("limited_congruence_extrapolation_assign(y, cgs of z)", 1, false, TOK(x.limited_congruence_extrapolation_assign(y, z.congruences(), tp)))
     OP("limited_generator_extrapolation_assign(y, cgs of z)", 1, false, TOK(x.limited_generator_extrapolation_assign(y, z.congruences(), tp)))
     OP("add_grid_generators(gs of z)", 0, false, x.add_grid_generators(z.grid_generators()); return 0;)
@@ -434,7 +435,8 @@ template <typename D> struct Prog {
       else if constexpr (K<D>::prod) { (void) d.domain1(); (void) d.domain2(); log << "domain1, domain2"; } else { (void) d.is_empty(); log << "is_empty"; } break; }
     case 13: { if constexpr (K<D>::poly) { (void) d.generators(); log << "generators"; } else if constexpr (K<D>::grid) { (void) d.grid_generators(); log << "grid_generators"; }
       else if constexpr (!K<D>::ps) { (void) d.constraints(); log << "constraints"; } else { log << "size " << d.size(); } break; }
-    case 14: { if constexpr (!K<D>::prod) log << "contains_integer_point -> " << d.contains_integer_point(); else { (void) d.relation_with((Variable(v.id()) %= 1) / 2); log << "relation_with congruence"; } break; }
+    case 14: { if constexpr (!K<D>::prod) { if (d.is_bounded()) log << "contains_integer_point -> " << d.contains_integer_point(); else log << "is_bounded -> 0"; }   // (the branch-and-bound behind contains_integer_point() need not terminate on unbounded sets: a liveness matter, out of reach here)
+      else { (void) d.relation_with((Variable(v.id()) %= 1) / 2); log << "relation_with congruence"; } break; }
     default: log << "OK -> " << d.OK() << ", hash/memory " << (d.total_memory_in_bytes() > 0); break;
     }
   }
